@@ -119,7 +119,8 @@ def package_self(E, **over):
 V.REG.register(PK.PackageGenerator, ["package_path", "include_all_inputs", "include_all_enums", "input_types_generator",
                                      "enums_generator", "client_generator", "init_generator", "plugin_manager", "schema_source",
                                      "queries_source", "_generated_files", "_used_enums", "input_types_module_name",
-                                     "enums_module_name"])
+                                     "enums_module_name", "enable_custom_operations", "async_client", "custom_query_generator",
+                                     "custom_mutation_generator"])
 
 
 def pattr(t, f):
@@ -198,3 +199,90 @@ class GenerateEnums(Contract):
 
 GenerateEnums.replay_custom = _replay_pruning
 CONTRACTS = [GenerateInputTypes(), GenerateEnums(), AstToStr(), AddComments()]
+
+
+# ------------------------------------------------------------------------------------------ generate(): order of effects
+class Step(Contract):
+    """effect-only stand-in for one private step of PackageGenerator.generate (assumed here; the steps that matter have
+    their own contracts above): logs its name; steps that write files extend _generated_files by an opaque list"""
+    assumed = True
+    WRITES = {"_generate_input_types", "_generate_result_types", "_generate_fragments", "_copy_files", "_generate_client",
+              "_generate_enums", "_generate_init", "_generate_custom_queries", "_generate_custom_mutations",
+              "_generate_custom_fields_typing", "_generate_custom_fields"}
+
+    def __init__(self, name):
+        self.name = name
+        self.target = PKG + name
+
+    def apply_at_call(self, I, fn, args, kwargs):
+        I.p.effect("step", self.name)
+        self_ = args[0]
+        if self.name in self.WRITES:
+            files = self_.attrs["_generated_files"]
+            written = z3.Const("files_written_by" + self.name, V.Val)
+            I.p.assume(V.is_VList(written))
+            files.t = V.VList(V.vconcat(V.vl(files.t), V.vl(written)))
+        return None
+
+
+STEPS = ["_include_exceptions", "_validate_unique_file_names", "_generate_input_types", "_generate_result_types", "_generate_fragments",
+         "_copy_files", "_generate_custom_fields_typing", "_generate_custom_fields", "_generate_custom_queries",
+         "_generate_custom_mutations", "_generate_client", "_generate_enums", "_generate_init"]
+
+
+class FakeCustomOps:
+    __pyvc_methods__ = {"add_execute_custom_operation_method": _logged("client.add_execute_custom_operation_method"),
+                        "create_custom_operation_method": _logged("client.create_custom_operation_method"),
+                        "generate": _logged("client.generate", "client_module")}
+
+
+V.REG.register(FakeCustomOps, ["arguments_generator"])
+
+
+class Generate(Contract):
+    props = ("C04", "C09", "C17")
+    target = PKG + "generate"
+    use_at_calls = False
+    frame_args = False
+
+    def setup(self, E):
+        custom = E.fork("enable_custom_operations")
+        s = package_self(E, enable_custom_operations=custom, async_client=True,
+                         custom_query_generator=Obj(FakeInit, {}) if E.fork("has_custom_queries") else None,
+                         custom_mutation_generator=Obj(FakeInit, {}) if E.fork("has_custom_mutations") else None)
+        s.attrs["client_generator"] = Obj(FakeCustomOps, {"arguments_generator": Obj(FakeArguments, {})})
+        E.p.flags = (custom, s.attrs["custom_query_generator"] is not None, s.attrs["custom_mutation_generator"] is not None)
+        return [s], {}
+
+    def configure(self, ctx):
+        for n in STEPS:
+            ctx.contracts[(PKG.split(":")[0], "PackageGenerator." + n)] = Step(n)
+
+    def ensures(self, A, res):
+        custom, hq, hm = A["__path__"].flags
+        steps = [p for k, p in A["__effects__"] if k in ("step", "mkdir")]
+        steps = ["mkdir" if s is None else s for s in steps]
+        expected = ["_include_exceptions", "_validate_unique_file_names"]
+        mk_dir = "mkdir" in steps
+        if mk_dir:
+            expected.append("mkdir")
+        expected += ["_generate_input_types", "_generate_result_types", "_generate_fragments", "_copy_files"]
+        if custom:
+            expected += ["_generate_custom_fields_typing", "_generate_custom_fields"]
+            if hq:
+                expected.append("_generate_custom_queries")
+            if hm:
+                expected.append("_generate_custom_mutations")
+        expected += ["_generate_client", "_generate_enums", "_generate_init"]
+        return {
+            # the bundled exceptions module is part of the validated file set; nothing is written before validation;
+            # enums come after every producer of enum uses (inputs, results, fragments, client)
+            "steps-in-the-documented-order(validation-first,enums-after-all-uses)": z3.BoolVal(steps == expected),
+            "directory-created-iff-missing": z3.Bool("package_dir_exists") != z3.BoolVal(mk_dir),
+            "reported-files-are-the-sorted-files-written": res == V.VList(models.PY_SORTED(V.vl(pattr(A.final_self, "_generated_files")))),
+        }
+
+    mutates = ("self",)
+
+
+CONTRACTS.append(Generate())
